@@ -13,6 +13,8 @@ class Prog:
 
     def __init__(self, rnd: random.Random):
         self.r = rnd
+        # a second stream for the choices added later, so that the programs of earlier seeds keep their shape
+        self.r2 = random.Random(hash(rnd.getstate()))
         self.files: dict[str, list[tuple[str, str]]] = {}  # file -> [(text, tag)]
         self.uid = 0
 
@@ -69,7 +71,10 @@ class Prog:
         out.append((head, f"proc:{name}:{','.join(args)}"))
         if r.random() < 0.4:
             out.append((f"{pad}  use iso_fortran_env, only: int32, real64", "use"))
-        out.append((f"{pad}  {self.kw('implicit none')}", "implicit"))
+        if is_module_proc and self.r2.random() < 0.4:
+            pass  # IMPLICIT NONE is inherited from the host (every generated module and program has one)
+        else:
+            out.append((f"{pad}  {self.kw('implicit none')}", "implicit"))
         for a in args:
             intent = r.choice(["", ", intent(in)", ", intent(inout)"])
             out.append((f"{pad}  integer{intent} :: {a}", f"argdecl:{a}"))
@@ -82,7 +87,10 @@ class Prog:
         if r.random() < 0.3:
             out.append((f"{pad}{self.kw('contains')}", "contains"))
             iname = self.nm("in")
-            out.append((f"{pad}  subroutine {iname}()", f"proc:{iname}:"))
+            iargs = [self.nm("ia") for _ in range(self.r2.randint(0, 2))]
+            out.append((f"{pad}  subroutine {iname}({', '.join(iargs)})", f"proc:{iname}:{','.join(iargs)}"))
+            for a in iargs:
+                out.append((f"{pad}    integer :: {a}", f"argdecl:{a}"))
             out.append((f"{pad}    integer :: {self.nm('lv')}", "decl"))
             out.append((f"{pad}  end subroutine {iname}", "endproc"))
         out.append((f"{pad}{self.kw('end')} {self.kw('function' if fun else 'subroutine')} {name}", "endproc"))
@@ -271,6 +279,30 @@ def seed_defect(p: Prog, cls: str, r: random.Random):
         t = L[i][0]
         L[i] = (t.replace("(", "(zz_undeclared, ", 1), L[i][1])
         return done(i, ERR, "No matching declaration found for argument")
+    if cls == "arg_undeclared_nested":
+        # IMPLICIT NONE in force two host levels up, none in between
+        lines = ["module dm4", "  implicit none", "contains", "  subroutine zz_outer(c)", "    integer :: c", "  contains",
+                 "    subroutine zz_inner(zz_a, zz_b)", "      integer :: zz_b", "    end subroutine zz_inner",
+                 "  end subroutine zz_outer", "end module dm4"]
+        fname = "dm4.f90"
+        files[fname] = [(t, "x") for t in lines]
+        return done(6, ERR, 'No matching declaration found for argument "zz_a"')
+    if cls == "intent_not_arg_no_args":
+        c = positions(L, lambda t, g: g.startswith("proc:") and g.split(":")[2] == "" and "iface_" not in g)
+        if c:
+            i = r.choice(c)
+            pad = L[i][0][: len(L[i][0]) - len(L[i][0].lstrip())] + "  "
+            j = i + 1
+            while L[j][1] in ("use", "implicit"):
+                j += 1
+            L.insert(j, (f"{pad}integer, intent(in) :: zz_notarg", "badintent"))
+            return done(j, ERR, "with INTENT keyword not found in argument list")
+        lines = ["module dm4", "  implicit none", "contains", "  subroutine zz_noargs()", "    integer, intent(in) :: zz_notarg",
+                 "  end subroutine zz_noargs", "  subroutine zz_noparen", "    real, intent(out) :: zz_other", "  end subroutine zz_noparen",
+                 "end module dm4"]
+        fname = "dm4.f90"
+        files[fname] = [(t, "x") for t in lines]
+        return done(4, ERR, "with INTENT keyword not found in argument list", also=[("dm4.f90", 7, "with INTENT keyword")])
     if cls == "intent_not_arg":
         c = positions(L, lambda t, g: g.startswith("argdecl:") and g != "argdecl:self")
         if not c:
@@ -355,7 +387,7 @@ def seed_defect(p: Prog, cls: str, r: random.Random):
 
 
 CLASSES = ["declared_twice", "masks_host", "bare_end", "unknown_module", "type_not_accessible", "type_accessible_in_sibling_scope",
-           "arg_undeclared",
+           "arg_undeclared", "arg_undeclared_nested", "intent_not_arg_no_args",
            "intent_not_arg", "second_contains", "contains_no_scope", "implicit_no_scope", "public_no_scope",
            "private_no_scope", "import_outside_interface", "use_after_implicit", "procedure_before_contains",
            "procedure_in_block", "procedure_in_type", "deferred_not_implemented", "long_line"]
